@@ -76,7 +76,9 @@ func trainReplay(b *trainBeh) (d string, known bool) {
 }
 
 func trainReplay0(b *trainBeh) (string, bool) {
-	fc, err := layers.NewFC(&layers.FCConfig{Inputs: b.Cfg.Feat, Outputs: 1})
+	fcConf := &layers.FCConfig{Inputs: b.Cfg.Feat, Outputs: 1}
+	fc, err := layers.NewFC(fcConf)
+	fcConf.Inputs, fcConf.Outputs = 77, 78 // the config struct is the caller's
 	if err != nil {
 		return "HARNESS: " + err.Error(), false
 	}
@@ -88,11 +90,15 @@ func trainReplay0(b *trainBeh) (string, bool) {
 	if b.Cfg.Act == "relu" {
 		act = activations.NewRelu()
 	} else {
-		act = activations.NewLeakyRelu(&activations.LeakyReluConfig{M: 0.5})
+		lrConf := &activations.LeakyReluConfig{M: 0.5}
+		act = activations.NewLeakyRelu(lrConf)
+		lrConf.M = 77
 	}
 	x, _ := bind.New([]int{b.Cfg.Batch, b.Cfg.Feat}, litVals(b.Cfg.X), false)
 	y, _ := bind.New([]int{b.Cfg.Batch}, litVals(b.Cfg.Y), false)
-	sgd := optimizers.NewSGD(&optimizers.SGDConfig{LearningRate: 0.5})
+	sgdConf := &optimizers.SGDConfig{LearningRate: 0.5}
+	sgd := optimizers.NewSGD(sgdConf)
+	sgdConf.LearningRate = 77 // the config struct is the caller's
 	idx := map[string]int{"w": 0, "b": 1}
 	var loss tensor.Tensor
 	last := "ok"
@@ -209,7 +215,9 @@ func trajectory0(cs *sym.Case, rng *rand.Rand, K int, lr float64) (string, bool,
 			continue
 		}
 		wn, bn := ins.Args[0], ins.Args[1]
-		fc, err := layers.NewFC(&layers.FCConfig{Inputs: 1, Outputs: cs.Inputs[wn-1].Dims[0]})
+		fcConf := &layers.FCConfig{Inputs: 1, Outputs: cs.Inputs[wn-1].Dims[0]}
+		fc, err := layers.NewFC(fcConf)
+		fcConf.Inputs, fcConf.Outputs = 77, 78
 		if err != nil {
 			return "HARNESS: " + err.Error(), false, 0
 		}
@@ -218,7 +226,9 @@ func trajectory0(cs *sym.Case, rng *rand.Rand, K int, lr float64) (string, bool,
 		params = append(params, param{wn, ws[0].Value}, param{bn, ws[1].Value})
 		layerOf[ci] = fc
 	}
-	sgd := optimizers.NewSGD(&optimizers.SGDConfig{LearningRate: lr})
+	sgdConf := &optimizers.SGDConfig{LearningRate: lr}
+	sgd := optimizers.NewSGD(sgdConf)
+	sgdConf.LearningRate = 77 // the config struct is the caller's
 	grads, asis := map[int][]*term.T{}, map[int][]*term.T{}
 	for _, g := range cs.Grads {
 		grads[g.Node] = g.Data
